@@ -1658,7 +1658,7 @@ bool SimpleCondition::isTrue() {
   if (!m_message) {
     return false;
   }
-  if (m_message->getLastChangeTime() > m_lastCheckTime) {
+  if (m_message->getLastChangeTime() > 0 && m_message->getLastChangeTime() >= m_lastCheckTime) {
     bool isTrue = !m_hasValues;  // for message seen check
     if (!isTrue) {
       isTrue = checkValue(m_message, m_field);
